@@ -497,6 +497,13 @@ def replay_h_multi_append(n_old, r0, b0, r1, b1, nfr, **kw):
         if list(out["a"]) != want:
             return True, "after append the dataset with part ids %r reads %d rows, expected %d" % (ids, len(out),
                                                                                                   len(want))
+        # the summary files count what they list
+        for name in ("_metadata", "_common_metadata"):
+            f1 = fastparquet.ParquetFile(os.path.join(dn, name)).fmd
+            listed = sum(rg.num_rows for rg in (f1.row_groups or []))
+            if f1.num_rows != len(want) or (name == "_metadata" and listed != len(want)):
+                return True, "after append %s records num_rows=%d (its row groups list %d rows; the dataset holds " \
+                             "%d)" % (name, f1.num_rows, listed, len(want))
         return False, "append left existing files untouched and added rows at the end"
     finally:
         shutil.rmtree(d, ignore_errors=True)
